@@ -13,6 +13,8 @@ package bigendian
 //@   ensures err == nil ==> len(out) == size
 //@   ensures err == nil ==> forall i int :: 0 <= i && i < size ==> out[i] == byte(n >> (8*uint64(size-1-i)))
 //@   ensures[low-byte] err == nil && size >= 1 ==> out[size-1] == byte(n)
+//@   ensures[bytes-of-8] err == nil && size == 8 ==> out[0] == byte(n >> 56) && out[1] == byte(n >> 48) && out[2] == byte(n >> 40) && out[3] == byte(n >> 32) && out[4] == byte(n >> 24) && out[5] == byte(n >> 16) && out[6] == byte(n >> 8) && out[7] == byte(n)
+//@   ensures[accepts-non-negative-8] size == 8 && n >= 0 ==> err == nil
 //@   ensures err == nil ==> fresh(out)
 //@   ensures err != nil ==> n < 0 || (size < 8 && uint64(n) >= uint64(1) << (8*uint64(size)))
 //@   assigns nothing
